@@ -93,7 +93,9 @@ SELECTORS = {  # as written in configs -> (params, name used for alphabetical or
     # parameter names differing only in case (p / P): 'parameters sorted' must still be a total,
     # order-independent order
     'a.b.fn': ('pqrPQ', 'fn'), 'c.b.fn': ('pq', 'fn'), 'gn': ('pqP', 'gn'), 'x.Gn': ('pq', 'gn'),
-    'mod.K': ('pq', 'k'), 'mod.K.meth': ('pq', 'k.meth')}
+    'mod.K': ('pq', 'k'), 'mod.K.meth': ('pq', 'k.meth'),
+    # Gin's own configurable: `<scope>/singleton.constructor = @fn` is a binding like any other
+    'gin.singleton': (('constructor',), 'singleton')}
 FULL = sorted(SELECTORS)
 SCOPES = ['', '', 's', 'S', 's/t', 'T/s']
 MACROS = ['M', 'm', 'sc/M']
